@@ -26,12 +26,13 @@ func init() {
 // codecEnv: a set of modelled types, their linked descriptors and a codec that
 // can resolve them (for Any values).
 type codecEnv struct {
-	name  string
-	model *tModel
-	ct    *compiledTypes
-	codec *j5codec.Codec
-	roots []string // message types used as roots
-	inner []string // message types usable inside Any
+	name      string
+	model     *tModel
+	ct        *compiledTypes
+	codec     *j5codec.Codec
+	roots     []string // message types used as roots
+	inner     []string // message types usable inside Any
+	innerDeep []string // message types with Any fields of their own
 }
 
 func newCodecEnv(name string, model *tModel) (*codecEnv, error) {
@@ -53,6 +54,8 @@ func newCodecEnvFrom(name string, model *tModel, ct *compiledTypes) *codecEnv {
 		env.roots = append(env.roots, m.Full)
 		if !m.Wrapper && !hasAnyField(m) {
 			env.inner = append(env.inner, m.Full)
+		} else if !m.Wrapper {
+			env.innerDeep = append(env.innerDeep, m.Full)
 		}
 	}
 	return env
@@ -68,7 +71,7 @@ func hasAnyField(m *tMsg) bool {
 }
 
 func (env *codecEnv) gen(rng *rand.Rand, cursor int, feats map[string]bool) *msgGen {
-	return &msgGen{rng: rng, ct: env.ct, model: env.model, cursor: cursor, feats: feats, anyInner: env.inner, maxDepth: 4}
+	return &msgGen{rng: rng, ct: env.ct, model: env.model, cursor: cursor, feats: feats, anyInner: env.inner, anyInnerDeep: env.innerDeep, maxDepth: 4}
 }
 
 func (env *codecEnv) decodeAny(typeName string, protoBytes, j5json []byte) (proto.Message, error) {
